@@ -530,7 +530,7 @@ CLAUSE_PROPS = {"wf": ["C14"], "den": ["C02"], "denbag": ["C02", "C17"], "denlis
 
 CONFIGS = {
     "quick": [("SqlQuick.cfg", 6), ("SqlFocusQ.cfg", 4), ("SqlChainQ.cfg", 4)],
-    "thorough": [("SqlQuick.cfg", 2), ("SqlFocus.cfg", 4), ("SqlChain.cfg", 4), ("SqlGeneral.cfg", 8), ("SqlFocus5.cfg", 16)],
+    "thorough": [("SqlQuick.cfg", 2), ("SqlFocus.cfg", 4), ("SqlChain.cfg", 4), ("SqlGeneral.cfg", 8), ("SqlFocus5.cfg", 32)],
 }
 
 
